@@ -6,12 +6,14 @@ use std::io::{BufRead, Read};
 
 mod time_k;
 mod sm;
+mod version_k;
 
 fn dispatch(req: &Value) -> Value {
     let kernel = req["kernel"].as_str().unwrap_or("");
     let r = std::panic::catch_unwind(|| match kernel {
         k if k.starts_with("time.") => time_k::run(k, req),
         k if k.starts_with("sm.") => sm::run(k, req),
+        k if k.starts_with("version.") => version_k::run(k, req),
         _ => json!({"error": format!("unknown kernel {}", kernel)}),
     });
     match r {
